@@ -25,7 +25,7 @@ package server
 // Thread-local mode: the loop talks to other goroutines through channels; only this per-iteration protocol
 // obligation is claimed, nothing about the heap.
 //@ func (*fsmHandler).recvMessageloop
-//@   tag C06 C14 C08
+//@   tag C06 C14 C08 C07
 //@   claims at-call
 //@   at-call table.UpdatePathAttrs4ByteAs( requires handling == bgp.ERROR_HANDLING_NONE || handling == bgp.ERROR_HANDLING_ATTRIBUTE_DISCARD ==> called(ValidateUpdateMsg)
 // ... and "the strongest reaction any of its errors calls for" also when decoding already asked for
@@ -36,8 +36,27 @@ package server
 // only for a peer that speaks 2-octet AS numbers; from a 4-octet speaker the two attributes are discarded
 // (RFC 6793 6), not merged into what it sent
 //@   at-call table.UpdatePathAttrs4ByteAs( requires h.fsm.twoByteAsTrans
+// from C07 "every ... unexpected ... message ... yields the NOTIFICATION code/subcode and next state the RFCs prescribe":
+// an OPEN arriving in Established is an FSM error (RFC 4271 8.2.2 event 19, RFC 6608 4) - it is never passed on to
+// the server like a routing message
+//@   at-call h.callback(fmsg) requires msgType != bgp.BGP_MSG_OPEN
+//@   at-call ^bgp.NewBGPNotificationMessage(bgp.BGP_ERROR_FSM_ERROR requires msgType == bgp.BGP_MSG_OPEN && arg1 == bgp.BGP_ERROR_SUB_RECEIVE_UNEXPECTED_MESSAGE_IN_ESTABLISHED_STATE
 //@   at-call table.DiscardAs4Attrs( requires !h.fsm.twoByteAsTrans
 //@   at-call table.DiscardAs4Attrs( requires handling == bgp.ERROR_HANDLING_NONE || handling == bgp.ERROR_HANDLING_ATTRIBUTE_DISCARD ==> called(ValidateUpdateMsg)
+
+// from C07: "administrative disable/shutdown/reset, prefix-limit overrun ... yields the NOTIFICATION code/subcode and
+// next state the RFCs prescribe": an administrative event in Established that makes us send a NOTIFICATION ends the
+// Established state in the same step (RFC 4271 8.2.2: the session goes to Idle) - the wait loop is not re-entered,
+// where the read failure on the connection we closed ourselves would be taken for a loss of the peer
+//@ props C07
+// from C07 "yields the NOTIFICATION code/subcode ... the RFCs prescribe": a Cease turned into a Hard Reset (RFC 8538 3.1)
+// carries the NOTIFICATION it stands for - its code, its subcode, then its data
+//@ func (*fsmHandler).established$2
+//@   claims at-call
+//@   at-call bgp.NewBGPNotificationMessage( requires len(arg2) == len(m.Body.(*bgp.BGPNotification).Data) + 2 && arg2[0] == m.Body.(*bgp.BGPNotification).ErrorCode && arg2[1] == m.Body.(*bgp.BGPNotification).ErrorSubcode
+//@ func (*fsmHandler).established
+//@   claims step
+//@   loop 0 step called(changeadminState) ==> !called(sendNotification)
 
 // =============================================================================================
 // C08 — session parameters are negotiated as the intersection of both OPEN messages
@@ -60,6 +79,11 @@ package server
 // and its ADD-PATH mode has a direction only if we configured it and the peer announced the opposite one.
 // (That every such family does end up in the map needs "the range visits every key", which the map model does
 // not give - DESIGN.md 8.)
+// from C08 "exactly the address families both sides announced ... Messages are ... emitted under exactly these options":
+// an End-of-RIB marker is only made for a family the session negotiated (the callers hand in the configured list)
+//@ func (*BgpServer).getBestFromLocalCallbackLocked
+//@   claims at-call
+//@   at-call ^table.NewEOR(family) requires peer.IsFamilyEnabled(arg0)
 //@ func open2Cap
 // an OPEN without a Multiprotocol capability announces IPv4 unicast (RFC 4760 8): that default is in the peer's list
 // before ADD-PATH tuples and local families are matched against it - an ADD-PATH tuple for ipv4-unicast counts then too
@@ -334,8 +358,12 @@ package server
 // can no longer be imported into the neighbour's VRF replaces one that could (and was advertised): the neighbour is
 // sent the withdrawal, the function does not just drop the change (vrf is in scope at the returns of the VRF block)
 //@ func (*BgpServer).prePolicyFilterpath
-//@   claims at-return
+//@   claims at-return at-call
 //@   at-return requires ok && old != nil && table.CanImportToVrf(vrf, old) ==> ret0 != nil
+// from C17 "re-advertised to that VRF's attached peers as a plain route": the withdrawals the filter chain derives from
+// the replaced route are plain too - the replaced route handed to the chain for a VRF neighbour is its plain form
+// (the global VPN route itself, withdrawn, would go out in the VPN family with the RD-qualified NLRI)
+//@   at-call ^filterpath(peer, path, old) requires peerVrf != "" && arg1 != nil && arg2 != nil ==> arg2 == old0.ToLocal()
 
 // =============================================================================================
 // C12 - graceful restart: the per-call parts (DESIGN.md 4 C12; every "exactly when <timer/event order>" clause
@@ -368,9 +396,23 @@ package server
 //@   at-return requires len(ret0) + len(ret1) == len(all)
 // from C12: LLGR-stale routes are "only advertised to LLGR-capable peers": towards a peer without LLGR for the
 // family such a route becomes a withdrawal (a clone marked withdrawn), never the route itself
+// (pinned to its body: what the session's source description - built from the global configuration when the session
+// came up - says about the peer's AS)
+//@ func (*peer).isConfederationMember
+//@   pure
+//@   claims at-return
+//@   at-return requires ret0 == (info != nil && info.Confederation)
+// the same on ingress, before selection: what a confederation member sent in LOCAL_PREF is what its route is ranked by
+//@ func (*BgpServer).propagateUpdate$1
+//@   tag C03
+//@   claims at-call
+//@   at-call path.RemoveLocalPref() requires !peer.isConfederationMember()
 //@ func (*BgpServer).postFilterpath
 //@   requires peer != nil
 //@   claims at-call at-return
+// from C03 "highest LOCAL_PREF": LOCAL_PREF is only taken off for a peer outside the local AS and outside the
+// confederation - members of the confederation exchange it like iBGP peers do (RFC 5065 4, 5)
+//@   at-call path.RemoveLocalPref() requires !peer.isConfederationMember()
 //@   at-call ^path.Clone( requires arg1
 //@   at-return requires path0 != nil && !old(path0.IsWithdraw) && old(!peer.isLLGREnabledFamily(path0.GetFamily()) && path0.IsLLGRStale()) ==> ret0 != path0 && called(Clone)
 
